@@ -128,3 +128,82 @@ Proof.
   destruct (allgather_all_schedules 5 ltac:(discriminate) 2 13 (fun r => [r; 100 + r]) ltac:(reflexivity) eq_refl) as [n [H _]].
   exists n. exact H.
 Qed.
+
+(* ===== tie T1: the model's message lists are the calls of the definitions GENERATED from /repo/src/sc_allgather.c ============ *)
+(* Gen/AllgatherC04.v is regenerated from the working tree on every run (tools/c2g/groups_C04.py); an edit of the arithmetic
+   changes a generated definition and the statements below stop checking.  B31 = 2^31. *)
+From ScV Require Import Gen.AllgatherC04 C04.AllgatherGen.
+Local Open Scope Z_scope.
+
+
+(* g2 = groupsize / 2, g2B = groupsize - g2 *)
+Theorem C04_gen_halves : forall g, 0 <= g < B31 -> ag_halves g = (g / 2, g - g / 2).
+Proof. exact gen_halves. Qed.
+Print Assumptions C04_gen_halves.
+
+(* the recursion is used above SC_ALLGATHER_ALLTOALL_MAX *)
+Theorem C04_gen_is_recursive : forall g, ag_is_recursive g = (c_SC_ALLGATHER_ALLTOALL_MAX <? g).
+Proof. exact gen_is_recursive. Qed.
+Print Assumptions C04_gen_is_recursive.
+
+(* below the threshold the all-to-all exchange gets the same arguments *)
+Theorem C04_gen_a2a_args : forall sz g o r, ag_a2a_args sz g o r = (sz, g, o, r).
+Proof. exact gen_a2a_args. Qed.
+Print Assumptions C04_gen_a2a_args.
+
+(* sc_allgather: datasize = sendcount * sizeof (sendtype); the own block is copied to slot mpirank with datasize bytes; the recursion starts with the whole communicator *)
+Theorem C04_gen_top : forall n ts P r sendtype recvtype, 0 <= n < B31 -> 0 <= ts -> n * ts < B31 -> 0 <= r < P -> P < B31 ->
+  top_datasize n ts = n * ts /\ top_sized_type sendtype recvtype = sendtype /\
+  top_copy_offset r (n * ts) = r * (n * ts) /\ top_copy_bytes r (n * ts) = n * ts /\
+  top_args (n * ts) P r = (n * ts, P, r - 0, r).
+Proof. exact gen_top. Qed.
+Print Assumptions C04_gen_top.
+
+
+
+(* the receives the model lists for a rank in the exchange step of a group are the Irecv calls of the branch the generated tests select: (buffer offset, bytes, peer, tag) *)
+Theorem C04_gen_recvs_level : forall g base r sz ta tb tc tall, 2 <= g -> 0 <= base -> base <= r < base + g -> 0 <= sz -> g * sz < B31 -> base + 2 * g < B31 ->
+  map (as_call sz base ta tb tc tall) (recvs_level g base r) =
+  if ag_in_lower (r - base) (g / 2) then [call7 ag_msg1_offset ag_msg1_bytes ag_msg1_peer ag_msg1_tag sz (g / 2) (g - g / 2) r ta tb tc]
+  else if ag_upper_odd (r - base) g (g / 2) (g - g / 2) then [call7 ag_msg4_offset ag_msg4_bytes ag_msg4_peer ag_msg4_tag sz (g / 2) (g - g / 2) r ta tb tc]
+  else [call7 ag_msg5_offset ag_msg5_bytes ag_msg5_peer ag_msg5_tag sz (g / 2) (g - g / 2) r ta tb tc].
+Proof. exact gen_recvs_level_c. Qed.
+Print Assumptions C04_gen_recvs_level.
+
+(* ... and the sends, including the extra send to the unpaired rank of an odd group *)
+Theorem C04_gen_sends_level : forall g base r sz ta tb tc tall, 2 <= g -> 0 <= base -> base <= r < base + g -> 0 <= sz -> g * sz < B31 -> base + 2 * g < B31 ->
+  map (as_call sz base ta tb tc tall) (sends_level g base r) =
+  if ag_in_lower (r - base) (g / 2) then
+    call7 ag_msg2_offset ag_msg2_bytes ag_msg2_peer ag_msg2_tag sz (g / 2) (g - g / 2) r ta tb tc ::
+    (if ag_lower_odd (r - base) (g / 2) (g - g / 2) then [call7 ag_msg3_offset ag_msg3_bytes ag_msg3_peer ag_msg3_tag sz (g / 2) (g - g / 2) r ta tb tc] else [])
+  else if ag_upper_odd (r - base) g (g / 2) (g - g / 2) then []
+  else [call7 ag_msg6_offset ag_msg6_bytes ag_msg6_peer ag_msg6_tag sz (g / 2) (g - g / 2) r ta tb tc].
+Proof. exact gen_sends_level_c. Qed.
+Print Assumptions C04_gen_sends_level.
+
+(* the two recursive calls work on (g2, base) and (g2B, base + g2); three requests are waited for *)
+Theorem C04_gen_recurse : forall g base r sz, 2 <= g -> 0 <= base -> base <= r < base + g -> 0 <= sz -> g * sz < B31 -> base + 2 * g < B31 ->
+  ag_recurse_lower_offset sz (g / 2) (g - g / 2) (r - base) r = 0 /\
+  ag_recurse_lower sz (g / 2) (g - g / 2) (r - base) r = (sz, g / 2, r - base, r) /\
+  ag_recurse_upper_offset sz (g / 2) (g - g / 2) (r - base) r = ((base + g / 2) - base) * sz /\
+  ag_recurse_upper sz (g / 2) (g - g / 2) (r - base) r = (sz, g - g / 2, r - (base + g / 2), r) /\
+  ag_wait_count = 3.
+Proof. exact gen_recurse_c. Qed.
+Print Assumptions C04_gen_recurse.
+
+(* all-to-all: slot base + j is received from rank base + j, for every j but the own offset *)
+Theorem C04_gen_recvs_a2a : forall g base r sz tall, 0 <= base -> base <= r < base + g -> 0 <= sz -> g * sz < B31 -> base + 2 * g < B31 ->
+  map (as_call sz base 0 0 0 tall) (recvs_a2a g base r) = a2a_calls g base r sz tall a2a_recv_offset a2a_recv_bytes a2a_recv_peer a2a_recv_tag.
+Proof. exact gen_recvs_a2a_c. Qed.
+Print Assumptions C04_gen_recvs_a2a.
+
+(* all-to-all: the own slot is sent to every other member *)
+Theorem C04_gen_sends_a2a : forall g base r sz tall, 0 <= base -> base <= r < base + g -> 0 <= sz -> g * sz < B31 -> base + 2 * g < B31 ->
+  map (as_call sz base 0 0 0 tall) (sends_a2a g base r) = a2a_calls g base r sz tall a2a_send_offset a2a_send_bytes a2a_send_peer a2a_send_tag.
+Proof. exact gen_sends_a2a_c. Qed.
+Print Assumptions C04_gen_sends_a2a.
+
+(* loop bound and number of requests of the all-to-all exchange *)
+Theorem C04_gen_a2a_counts : forall g base j, 0 <= base -> base + 2 * g < B31 -> 0 <= g -> a2a_loop_cond j g = (j <? g) /\ a2a_wait_count g = 2 * g.
+Proof. exact gen_a2a_counts_c. Qed.
+Print Assumptions C04_gen_a2a_counts.
